@@ -109,6 +109,15 @@ def tblEval (name : String) (a : List String) : Option (String × String) := do
     pure (toString (rookSquareToCastleRights s).toIndex, toString spec)
   | "toint" => let s ← sqA 0; pure (toString s.val, toString s.val)
   | "sqdefault" => pure ("0", "0")
+  -- the exported constants: the i-th named square / listed value has index i (promotion order Q N R B)
+  | "sqconst" | "allsq" | "allfiles" | "allranks" | "allpieces" | "allcolors" | "allcr" =>
+    let i ← natA 0; pure (toString i, toString i)
+  | "promo" =>
+    let i ← natA 0
+    let v ← [4, 1, 3, 2][i]?
+    pure (toString v, toString v)
+  | "nums" => pure ("64,8,8,6,2,4,4", "64,8,8,6,2,4,4")
+  | "empty" => pure ("0", "0")
   | "tosize" =>
     let v ← bbA 0; let k ← natA 1
     pure (toString (v.toSize k), toString (v.toNat / 2 ^ k))
@@ -126,7 +135,7 @@ def opTBL (args res : List String) : Findings := Id.run do
   | none => return #[⟨'E', "parse", s!"TBL {name} {args.tail}"⟩]
   | some (model, spec) =>
     -- `to_size` is a conversion helper, not geometry: its own channel
-    let chan := if name == "tosize" then "aux" else "tbl"
+    let chan := if ["tosize", "sqconst", "allsq", "allfiles", "allranks", "allpieces", "allcolors", "allcr", "promo", "nums", "empty"].contains name then "aux" else "tbl"
     fs := expectEq fs 'M' chan impl model
     fs := expectEq fs 'O' chan impl spec
     return fs
